@@ -4430,7 +4430,15 @@ func (a *Association) onRetransmissionFailure(id int) {
 	a.lock.Lock()
 	defer a.lock.Unlock()
 
+	// The timer decided on failure before this callback could take the lock: if
+	// the handshake has moved on in the meantime (the awaited INIT ACK or
+	// COOKIE ACK was handled first) the failure is stale. Reporting it would
+	// block for ever, with the lock held, on a result nobody is waiting for.
 	if id == timerT1Init {
+		if a.getState() != cookieWait {
+			return
+		}
+
 		a.log.Errorf("[%s] retransmission failure: T1-init", a.name)
 		a.completeHandshake(ErrHandshakeInitAck)
 
@@ -4438,6 +4446,10 @@ func (a *Association) onRetransmissionFailure(id int) {
 	}
 
 	if id == timerT1Cookie {
+		if a.getState() != cookieEchoed {
+			return
+		}
+
 		a.log.Errorf("[%s] retransmission failure: T1-cookie", a.name)
 		a.completeHandshake(ErrHandshakeCookieEcho)
 
